@@ -165,6 +165,20 @@ def r4(p, rep):
                 rep.add("C07.R4", f"{f0.qualname}:implicit-output:superset-rule", f"{f.module.rel}:{node.lineno}", sub, "candidates are the inputs whose axis names contain those of all other inputs" if sub else f"the candidates in `{coll}` are not selected by a subset test over the axis names of the other inputs")
     if n == 0:
         raise AnalysisError("unrecognised idiom: no `<set>.pop().__deepcopy__()` implicit output reachable from _parse_op")
+    # the name sets the superset rule compares leave out exactly the axes of length 1 (documented: "excluding 1s")
+    from sa.cfg import decompose
+
+    k = 0
+    for f in common.with_helpers(p, f0, depth=4):
+        for c in common.walk_with_lambdas(f.node):
+            if isinstance(c, (ast.SetComp, ast.ListComp, ast.GeneratorExp)) and isinstance(c.elt, ast.Attribute) and c.elt.attr == "name" and any(".nodes()" in norm(g.iter) or "nodes(" in norm(g.iter) for g in c.generators):
+                conds = [t for g in c.generators for i_ in g.ifs for t in decompose(i_, True)]
+                value_tests = [(t, pol) for t, pol in conds if any(isinstance(x, ast.Attribute) and x.attr == "value" for x in ast.walk(t))]
+                if not value_tests:
+                    continue
+                k += 1
+                ok = all(isinstance(t, ast.Compare) and len(t.ops) == 1 and isinstance(t.comparators[0], ast.Constant) and t.comparators[0].value == 1 and ((isinstance(t.ops[0], ast.NotEq) and pol) or (isinstance(t.ops[0], ast.Eq) and not pol)) for t, pol in value_tests)
+                rep.add("C07.R4", f"{f0.qualname}:implicit-output:names-exclude-only-1s:{f.name}", f"{f.module.rel}:{c.lineno}", ok, "axis names are collected for all axes except those of length 1" if ok else f"the axis names compared by the superset rule are filtered by `{[norm(t) for t, _ in value_tests]}` instead of `value != 1`: inputs that differ from the largest one by a numeric axis other than 1 ('a 3, a') no longer have an implicit output although their long form is valid")
 
 
 def r5(p, rep):
@@ -242,7 +256,7 @@ def r6(p, rep):
     for f in p.funcs.values():
         if f.module is not m:
             continue
-        for n in walk_no_nested(f.node):
+        for n in common.walk_with_lambdas(f.node):
             if isinstance(n, ast.Call) and "FlattenedAxis" in norm(n.func):
                 facts = common.lexical_facts(f, n)
                 # a module-level callback (`stage1.map(expr, _bracket_to_unit_axis)`): the facts where it is referred to
@@ -261,6 +275,17 @@ def r6(p, rep):
         raise AnalysisError("unrecognised idiom: no FlattenedAxis rewrite under `keepdims` in einx_from_namedtensor")
     for f, n, texts in hits:
         ok = any("Brackets" in t and pol for t, pol in texts)
+        if not ok:
+            # the replacement is a callback (`replacement = lambda: FlattenedAxis...`) handed to a function that applies
+            # it to Brackets nodes only
+            lam = next((a for a in parents(n) if isinstance(a, ast.Lambda)), None)
+            st = next((a for a in parents(n) if isinstance(a, ast.stmt)), None)
+            names = {t.id for t in st.targets if isinstance(t, ast.Name)} if isinstance(st, ast.Assign) and lam is not None and st.value is lam else set()
+            for c in common.walk_with_lambdas(f.node):
+                if isinstance(c, ast.Call) and (any(a is lam for a in c.args) or any(isinstance(a, ast.Name) and a.id in names for a in list(c.args) + [k.value for k in c.keywords])):
+                    r = resolve_callee(p, c, f.module)
+                    if r and r[0] == "func" and any(isinstance(x, ast.Call) and isinstance(x.func, ast.Name) and x.func.id == "isinstance" and "Brackets" in norm(x) for x in ast.walk(r[1].node)):
+                        ok = True
         rep.add("C07.R6", f"{f.qualname}:keepdims-rewrite", f"{m.rel}:{n.lineno}", ok, "keepdims=True wraps each bracket into a flattened axis `([...])`" if ok else f"under keepdims a FlattenedAxis is created for something that is not a Brackets node (guards {texts[:4]})")
 
 
@@ -297,6 +322,58 @@ def r7(p, rep):
         raise AnalysisError("unrecognised idiom: no recursive walk with an entered-context flag found in einx._src.namedtensor")
 
 
+def r8(p, rep):
+    rep.rule("C07.R8", "an ellipsis keeps its identity: a node rebuilt from an existing ellipsis carries that ellipsis' id, a synthesised one gets a fresh uuid4() of its own", "T-SIB over all constructions of stage1.Ellipsis (provenance of the ellipsis_id argument)", floor=8)
+    ell = p.cls("Ellipsis", "namedtensor.stage1.tree")
+    n = 0
+    for f in p.funcs.values():
+        if not isinstance(f.node, (ast.FunctionDef, ast.AsyncFunctionDef)):
+            continue
+        cfg = None
+        for c in walk_no_nested(f.node):
+            if not isinstance(c, ast.Call):
+                continue
+            r = resolve_callee(p, c, f.module)
+            is_ctor = bool(r and ((r[0] == "class" and r[1] is ell) or (r[0] == "func" and r[1].cls is ell and r[1].name == "create")))
+            if not is_ctor:
+                continue
+            n += 1
+            site = f"{f.module.rel}:{c.lineno}"
+            key = f"{f.qualname}:Ellipsis@{norm(c.args[0])[:30] if c.args else ''}"
+            ida = common.kwarg(c, "ellipsis_id") or (c.args[3] if len(c.args) > 3 else None)
+            if ida is None:
+                # Ellipsis.create has a default (a fresh id) only if the class says so; a missing id is not decided here
+                rep.ok("C07.R8", key, site, "no explicit id (constructor default)", nontrivial=False)
+                continue
+            cfg = cfg or common.cfg_of(f)
+            # which existing ellipsis is being rebuilt?  a dominating `isinstance(X, Ellipsis)` fact, or self inside the class
+            src_names = set()
+            for t, pol in common.lexical_facts(f, c):
+                if pol and isinstance(t, ast.Call) and isinstance(t.func, ast.Name) and t.func.id == "isinstance" and len(t.args) == 2 and isinstance(t.args[0], ast.Name):
+                    classes = t.args[1].elts if isinstance(t.args[1], ast.Tuple) else [t.args[1]]
+                    if any((lambda rr: rr and rr[0] == "class" and rr[1] is ell)(p.resolve_expr(f.module, k, f.node)) for k in classes) and len(classes) == 1:
+                        src_names.add(t.args[0].id)
+            if f.cls is ell and f.params:
+                src_names.add(f.params[0])
+            ida_x = cfg.expand(ida, cfg.node_for(c)) if cfg.node_for(c) is not None else ida
+            forwards = any(isinstance(x, ast.Attribute) and x.attr == "ellipsis_id" and isinstance(x.value, ast.Name) and x.value.id in src_names for x in ast.walk(ida_x)) or (isinstance(ida, ast.Name) and ida.id in f.params and ida.id == "ellipsis_id")
+            fresh_here = any(isinstance(x, ast.Call) and norm(x.func).endswith("uuid4") for x in ast.walk(ida))
+            if not fresh_here and isinstance(ida, ast.Name):
+                v = common.single_reaching_value(cfg, c, ida.id)
+                if v is not None and any(isinstance(x, ast.Call) and norm(x.func).endswith("uuid4") for x in ast.walk(v)):
+                    # drawn in the same loop iteration as the construction
+                    fresh_here = enclosing(getattr(v, "_parent", v), (ast.For, ast.While)) is enclosing(c, (ast.For, ast.While))
+            if src_names:
+                ok = forwards
+                why = f"rebuilds the ellipsis `{sorted(src_names)[0]}` and carries its id on" if ok else f"rebuilds the existing ellipsis `{sorted(src_names)[0]}` but gives the copy the id `{norm(ida)[:40]}`: the copies of one `...` (both sides of a distributed `->` / `,`) no longer share their repetition count"
+            else:
+                ok = fresh_here or forwards
+                why = "synthesised ellipsis with an id drawn by uuid4() for this node" if ok else f"a synthesised ellipsis gets the id `{norm(ida)[:40]}`, which is not drawn for this node alone: unrelated ellipses are forced to repeat equally often"
+            rep.add("C07.R8", key, site, ok, why)
+    if n < 8:
+        raise AnalysisError(f"anchor vanished: only {n} constructions of stage1.Ellipsis found")
+
+
 def run(p, rep, tier):
     r1(p, rep)
     r2(p, rep)
@@ -306,6 +383,7 @@ def run(p, rep, tier):
     r5(p, rep)
     r6(p, rep)
     r7(p, rep)
+    r8(p, rep)
     from . import c06 as _c06
 
     _c06.r8(p, rep)  # memoised parsing makes equal constraint texts share one node: the scalar-for-ellipsis form then fails
